@@ -182,6 +182,45 @@ def rule_p4(ctx, F):
             ctx.bad("P4", "%s:constructs-layer" % f.name, "%s constructs a HighlightIterLayer; only Highlighter::highlight (whole document) and HighlightIter::next (injections) may" % f.name)
 
 
+def rule_p5(ctx, F):
+    """intersect_ranges: every range it emits was clamped against the parent range that is current
+    at that moment — after the walk moves on to the next parent range, the lower clamp, the overlap
+    test and the upper clamp are all evaluated again before anything is pushed."""
+    fn = find_fn(ctx, F, "HighlightIterLayer::intersect_ranges", "P5")
+    if not fn:
+        return
+    pushes = [pt for pt, n in vec_calls(fn, "::push", "result")]
+    ctx.floor("ranges emitted by intersect_ranges", len(pushes), 2)
+    # the "current parent range": a user-named `&Range` local that is re-assigned while iterating
+    cur = set()
+    for lc in fn.j.get("locals", []) or []:
+        if (lc.get("t") or "").startswith("&") and (lc.get("t") or "").endswith("Range") and not str(lc.get("name", "_")).startswith("_"):
+            ds = [d for d in fn.defs(lc["id"]) if isinstance(d, dict) and d.get("k") not in ("uninit", "param")]
+            if len(ds) >= 2:
+                cur.add(lc["id"])
+    resets = [pt for pt, e in fn.points() for n in own_walk(e) if n.get("k") == "assign" and strip(n["l"]).get("k") == "ref" and strip(n["l"])["id"] in cur]
+    if not cur or len(resets) < 2:
+        ctx.bad("P5", "intersect_ranges:current-parent-range", "the local holding the current parent range (a `&Range` re-assigned from the parent iterator) was not found in intersect_ranges")
+        return
+    tests = [
+        ("lower clamp evaluated against the current parent range", (".start_byte < (*", ").start_byte)")),
+        ("overlap with the current parent range tested", ("(*", ").end_byte > ", ".start_byte)")),
+        ("upper clamp evaluated against the current parent range", ("(*", ").end_byte < ", ".end_byte)")),
+    ]
+    for label, needles in tests:
+        srch = Search(fn, rsrules.TextGate(fn, pushes, [(needles, True), (needles, False)], reset_pts=resets), budget=2000000)
+        v = srch.run(0)
+        key = "intersect_ranges:" + label
+        if v is None:
+            ctx.ok("P5", key, "every emitted range passed this test since the parent range last changed (%d pushes, %d re-assignments, %d states)" % (len(pushes), len(resets), srch.states),
+                   sample={"function": fn.name, "pushes": [fn.loc(p) for p in pushes]})
+        else:
+            ctx.bad("P5", key, "intersect_ranges emits a range at %s that was not re-tested after the walk moved to the next parent range (%s): the injected layer then covers text between the parent's ranges" % (
+                fn.loc(v.pt), label), {"site": fn.loc(v.pt), "path": srch.render_path(v.path)[-8:]})
+    clamp = [pt for pt, e in fn.points() for n in own_walk(e) if n.get("k") == "assign" and strip(n["l"]).get("k") == "mem" and strip(n["l"]).get("f") == "start_byte" and ").start_byte" in inline_text(fn, n["r"]) and "(*" in inline_text(fn, n["r"])]
+    text_gate(ctx, "P5", fn, clamp, [("the start is raised to the parent's start exactly when it lies before it", [((".start_byte < (*", ").start_byte)"), True)])], accept_desc="raising the range start")
+
+
 def emptying_points(F, fn, recv_sub, depth=0, seen=()):
     """Points of fn that leave the Vec denoted by `recv_sub` empty: Vec::clear, truncate(0), or a
     call of a local helper that empties its corresponding parameter on every path to its return."""
@@ -266,6 +305,7 @@ def run(ctx):
     rule_p2(ctx, F)
     rule_p3(ctx, F)
     rule_p4(ctx, F)
+    rule_p5(ctx, F)
     return ctx.finish(
         "Pairing, who-may-construct and gate rules over rustc MIR of tree-sitter-highlight: HighlightStart↔push and HighlightEnd↔pop of the end stack in both directions and nowhere else; "
         "Source spans only from emit_event (advancing byte_offset) and the tail; None only after the tail; raw bytes reach the HTML only unescaped-safe, never CR; final newline. "
